@@ -411,6 +411,36 @@ theorem C03_derive_cache_agrees (hd : HD K P) (hlaw : hd.Lawful) (hn : hd.NoHard
       o.scope = sc ∧ o.acct = a ∧ o.branch = b ∧ o.index = i ∧ o.imported = false :=
   opDeriveCache_agrees (reach_inv hd hlaw hn ops) hk ac hh
 
+/-- **What a caller does with a key it was given cannot change a later answer.**  In the model a returned key is a value
+    (not a reference into the manager), and a `DeriveFromKeyPathCache` request changes nothing at all — not the
+    database, not the account cache, not the address objects.  So from ANY state, after any number of such requests (any
+    scopes, accounts, paths, in any order, each result used, wiped or kept by its caller), the next request gets — state,
+    answer and writes — exactly what it would have got as the very first one.  (Go: a cache hit must hand out a copy of
+    the cached key; oracle keys `deriveFromKeyPathCache.cached-key-aliased`, `….returned-key-changed-by-lock`.) -/
+theorem C03_derive_cache_independent (cfg : Cfg) (hd : HD K P) (s : State K P) (qs : List (Op K P))
+    (hq : ∀ op ∈ qs, IsDeriveCache op) (sc : Scope) (a ac b i : Nat) :
+    step cfg hd (qs.foldl (fun st op => (step cfg hd st op).1) s) (.deriveCache sc a ac b i) =
+      step cfg hd s (.deriveCache sc a ac b i) := by
+  rw [foldl_deriveCache_state cfg hd qs hq s]
+
+/-- the same over histories: look-ups appended to any history reach the state of that history, so (with
+    `C03_derive_cache`) the key answered for a path after any number of earlier look-ups of it is still child
+    `b/i` of the seed's account key -/
+theorem C03_derive_cache_repeat (hd : HD K P) (hlaw : hd.Lawful) (hn : hd.NoHardPub) (ops qs : List (Op K P))
+    (hq : ∀ op ∈ qs, IsDeriveCache op) (sc : Scope) (a b i : Nat) (k : Priv K)
+    (hk : (opDeriveCache hd (run Cfg.fixed hd (ops ++ qs)).1 sc a b i).2.1 = .key k) :
+    (run Cfg.fixed hd (ops ++ qs)).1 = (run Cfg.fixed hd ops).1 ∧
+    (opDeriveCache hd (run Cfg.fixed hd ops).1 sc a b i).2.1 = .key k ∧
+    ∃ row ak k', acctRow (run Cfg.fixed hd ops).1 sc a = some row ∧ rowPriv row = some ak ∧
+      derive2 hd ak b i = some k' ∧ k = .hd k' := by
+  have hs : (run Cfg.fixed hd (ops ++ qs)).1 = (run Cfg.fixed hd ops).1 := by
+    rw [run_fst_eq, run_fst_eq]
+    simp only [runState, List.foldl_append]
+    exact foldl_deriveCache_state _ hd qs hq _
+  rw [hs] at hk
+  obtain ⟨row, ak, k', h1, h2, _, h4, h5, _⟩ := C03_derive_cache hd hlaw hn ops sc a b i k hk
+  exact ⟨hs, hk, row, ak, k', h1, h2, h4, h5⟩
+
 /-- **`RenameAccount` changes the name and nothing else.**  From any state, after a rename (successful or refused)
     every account row is the row it was up to its name: same public and private key, same next indices and — for an
     imported account — the same overriding address schema. -/
@@ -447,10 +477,41 @@ example : (match (step {} demoHD03 (run {} demoHD03 [.create [0], .unlock 0, .ne
       .props (84, 0) 1, .deriveCache (84, 0) 1 0 0 0]).1 (.deriveCache (84, 0) 0 0 0 0)).2.1 with
       | .key (.hd k) => k == [0, 84 + H, 0 + H, 0 + H, 0, 0] | _ => false) = true := by decide
 
+/-- non-vacuity of `C03_derive_cache_independent` / `_repeat`: the fourth look-up of a path (after look-ups of this and of
+    another account's path) answers what the first one answered: the child of the seed's account key -/
+example : (match (step {} demoHD03 (run {} demoHD03 [.create [0], .unlock 0, .newAccount (84, 0) 2, .props (84, 0) 0,
+      .props (84, 0) 1, .deriveCache (84, 0) 0 0 0 0, .deriveCache (84, 0) 0 0 0 0, .deriveCache (84, 0) 1 0 0 0,
+      .deriveCache (84, 0) 0 0 0 0]).1 (.deriveCache (84, 0) 0 0 0 0)).2.1 with
+      | .key (.hd k) => k == [0, 84 + H, 0 + H, 0 + H, 0, 0] | _ => false) = true := by decide
+
 /-- a traditional BIP49 account (nested P2WPKH on both branches) imported into the BIP0049Plus scope, renamed, read
     back after a restart: the next internal address is still nested P2WPKH (type code 3), index 1 -/
 example : (match (step {} demoHD03 (run {} demoHD03 [.create [0], .newAccountWO (49, 0) 2 [7] (1 + H) 7 (some ⟨.np2wkh, .np2wkh⟩),
       .next (49, 0) 1 1 true 1, .rename (49, 0) 1 3, .restart]).1 (.next (49, 0) 1 1 true 2)).2.1 with
       | .addrs [i] => i.typ == 3 && i.index == 1 && i.internal | _ => false) = true := by decide
+
+/-- what `DerivationInfo()` reports for an address issued from an account imported with master key fingerprint 7
+    (model of the official tree): the fingerprint, account child number, branch and index reported at issue time are
+    reported again after `MarkUsed` dropped the cached object and after a restart (the object is rebuilt from its row by
+    `chainAddressRowToManaged`, which takes the fingerprint from the account row).  Go oracle:
+    `derivationInfo.fingerprint-differs-after-reload` / `C08 key=Address.restart.derivation-info-differs`. -/
+example : (match (step {} demoHD03 (run {} demoHD03 [.create [0], .newAccountWO (84, 0) 2 [7] (1 + H) 7 none,
+      .next (84, 0) 1 1 false 1]).1 (.info 1)).2.1 with
+      | .addr i => i.fp == 7 && i.acct == 1 && i.acctChild == 1 + H && i.branch == 0 && i.index == 0 | _ => false) = true := by decide
+example : (match (step {} demoHD03 (run {} demoHD03 [.create [0], .newAccountWO (84, 0) 2 [7] (1 + H) 7 none,
+      .next (84, 0) 1 1 false 1, .markUsed (84, 0) (.key (.hd [7, 0, 0]) 0 true) "x"]).1
+        (.lookup (84, 0) (.key (.hd [7, 0, 0]) 0 true) 5)).2.1 with
+      | .addr i => i.fp == 7 && i.acct == 1 && i.acctChild == 1 + H && i.branch == 0 && i.index == 0 | _ => false) = true := by decide
+example : (match (step {} demoHD03 (run {} demoHD03 [.create [0], .newAccountWO (84, 0) 2 [7] (1 + H) 7 none,
+      .next (84, 0) 1 1 false 1, .restart]).1 (.lookup (84, 0) (.key (.hd [7, 0, 0]) 0 true) 5)).2.1 with
+      | .addr i => i.fp == 7 && i.acct == 1 && i.acctChild == 1 + H && i.branch == 0 && i.index == 0 | _ => false) = true := by decide
+/-- … whereas an address made by `extendAddresses` (observation 5 of notes/C03.md, the official tree's behaviour, modelled as
+    it is): its cached object reports fingerprint 0, the object rebuilt after a restart reports 7 -/
+example : (match (step {} demoHD03 (run {} demoHD03 [.create [0], .newAccountWO (84, 0) 2 [7] (1 + H) 7 none,
+      .extend (84, 0) 1 0 false]).1 (.lookup (84, 0) (.key (.hd [7, 0, 0]) 0 true) 5)).2.1 with
+      | .addr i => i.fp == 0 | _ => false) = true := by decide
+example : (match (step {} demoHD03 (run {} demoHD03 [.create [0], .newAccountWO (84, 0) 2 [7] (1 + H) 7 none,
+      .extend (84, 0) 1 0 false, .restart]).1 (.lookup (84, 0) (.key (.hd [7, 0, 0]) 0 true) 5)).2.1 with
+      | .addr i => i.fp == 7 | _ => false) = true := by decide
 
 end AddrDerive
